@@ -1182,6 +1182,8 @@ size_t ZSTD_CCtx_setParametersUsingCCtxParams(
     RETURN_ERROR_IF(cctx->cdict, stage_wrong,
                     "Can't override parameters with cdict attached (some must "
                     "be inherited from the cdict).");
+    RETURN_ERROR_IF(cctx->staticSize && params->nbWorkers != 0, parameter_unsupported,
+                    "MT not compatible with static alloc");
 
     cctx->requestedParams = *params;
     return 0;
